@@ -26,7 +26,7 @@ STRINGS = [
 KEYS = ["@@0@@", "k0", "k1", "k2", "item", "type", "config", "a.b", "a-b", "_u", "K", "x9", "CONFIG", "cfg", "key", "value",
         "list", "dict", "str", "none"]
 ODD_KEYS = ["ver\uff0e2", "\uff04set", "a\uff0eb", "\uff0e", "k_x0041_", "", "1", "a b", "k\u00e9", "<k>", "a:b", "true", "null", "~", "$x", "a\x00b", "-d", ".d", "\U0001f600"]
-INTS = [0, 1, -1, 2, 255, 2**31 - 1, 2**31, -2**31, -2**31 - 1, 2**32, 2**53 + 1, 2**63 - 1, -2**63, 2**63, -2**63 - 1,
+INTS = [0, 1, -1, 2, 255, 2573, 3338, 168626701, 2**31 - 1, 2**31, -2**31, -2**31 - 1, 2**32, 2**53 + 1, 2**63 - 1, -2**63, 2**63, -2**63 - 1,
         2**64, 10**30, -10**40]
 FLOATS = [0.0, -0.0, 1.0, -1.5, 0.1, 1e300, -1e300, 1e-300, 5e-324, 2.0**53, 1e16, 1.0e-5, 123456789.123456789,
           float("inf"), float("-inf"), float("nan"), 3.0, 1e22, 1e21]
